@@ -659,4 +659,4 @@ def check_boundary_handlers(ctx, rid):
                     ctx.violate(rid, f"{g.qualname}: the `try` that takes StopIteration for the normal end of the input also covers `{src_of(x)[:60]}`: when the file ends inside that block the frame is returned as it stands (or the sequence ends one frame short) without warning", g, t, construct=f"tolerant try covers {h.name}")
                 else:
                     ctx.ok(rid, f"{g.qualname}: the StopIteration-tolerant try at line {t.lineno} covers record-head reads only", f"{g.module.relpath}:{t.lineno}", sample=False)
-    ctx.floor(rid, nsites, 3, "StopIteration-tolerant try statements in frame parsers")
+    ctx.floor(rid, nsites, 1, "StopIteration-tolerant try statements in frame parsers")
